@@ -9,7 +9,7 @@ written file carries a name not yet among the values, every ballot line an order
 table, and the final recount writes back the three header numbers.
 -/
 namespace PrefVerif.C16
-open PrefVerif PrefVerif.Py PrefVerif.InstanceIO PrefVerif.OrdinalIO PrefVerif.Spec.IO PrefVerif.IOL
+open PrefVerif PrefVerif.Py PrefVerif.InstanceIO PrefVerif.OrdinalIO PrefVerif.Spec.IO PrefVerif.IOL PrefVerif.IOLw
 open PrefVerif.C01 PrefVerif.EntryPoints
 
 /-! ## header lines -/
